@@ -48,8 +48,8 @@ type c11Result struct {
 
 // ---------- typed data values ----------
 type C11Inner struct {
-	Name string
-	Next *C11Inner
+	Name string    `json:"name"`
+	Next *C11Inner `json:"next"`
 }
 type c11Emb struct {
 	*C11Inner
@@ -101,27 +101,27 @@ func c11Values() map[string]func() any {
 		"struct-key-map": func() any {
 			return map[struct{ A int }]string{{1}: "x"}
 		},
-		"struct":        func() any { return c11Priv{Name: "n", secret: 3, inner: &c11Priv{Name: "i"}} },
-		"struct-ptr":    func() any { return &c11Priv{Name: "n", secret: 3} },
-		"nil-ptr":       func() any { var p *c11Priv; return p },
+		"struct":     func() any { return c11Priv{Name: "n", secret: 3, inner: &c11Priv{Name: "i"}} },
+		"struct-ptr": func() any { return &c11Priv{Name: "n", secret: 3} },
+		"nil-ptr":    func() any { var p *c11Priv; return p },
 		// fields promoted from an embedded struct pointer that is nil / set, and from an embedded value
-		"nil-embedded":  func() any { return c11Emb{Title: "t"} },
-		"set-embedded":  func() any { return &c11Emb{C11Inner: &C11Inner{Name: "in"}, Title: "t"} },
-		"deep-embedded": func() any { return c11Emb2{c11Emb: c11Emb{Title: "t"}} },
-		"ptr-ptr":       func() any { p := &c11Priv{Name: "pp"}; return &p },
-		"func":          func() any { return func() string { return "called" } },
-		"func-arg":      func() any { return func(a, b int) int { return a + b } },
-		"chan":          func() any { return make(chan int) },
-		"error":         func() any { return errors.New("an error value") },
-		"stringer":      func() any { return c11Stringer{"str"} },
+		"nil-embedded":   func() any { return c11Emb{Title: "t"} },
+		"set-embedded":   func() any { return &c11Emb{C11Inner: &C11Inner{Name: "in"}, Title: "t"} },
+		"deep-embedded":  func() any { return c11Emb2{c11Emb: c11Emb{Title: "t"}} },
+		"ptr-ptr":        func() any { p := &c11Priv{Name: "pp"}; return &p },
+		"func":           func() any { return func() string { return "called" } },
+		"func-arg":       func() any { return func(a, b int) int { return a + b } },
+		"chan":           func() any { return make(chan int) },
+		"error":          func() any { return errors.New("an error value") },
+		"stringer":       func() any { return c11Stringer{"str"} },
 		"panic-stringer": func() any { return c11PanicStringer{} },
-		"bytes":         func() any { return []byte("by<t>es") },
-		"time":          func() any { return time.Date(2026, 1, 2, 3, 4, 5, 0, time.UTC) },
-		"duration":      func() any { return 3 * time.Second },
-		"uint8":         func() any { return uint8(200) },
-		"complex":       func() any { return complex(1, 2) },
-		"array":         func() any { return [3]int{1, 2, 3} },
-		"iface-slice":   func() any { return []fmt.Stringer{c11Stringer{"a"}, nil} },
+		"bytes":          func() any { return []byte("by<t>es") },
+		"time":           func() any { return time.Date(2026, 1, 2, 3, 4, 5, 0, time.UTC) },
+		"duration":       func() any { return 3 * time.Second },
+		"uint8":          func() any { return uint8(200) },
+		"complex":        func() any { return complex(1, 2) },
+		"array":          func() any { return [3]int{1, 2, 3} },
+		"iface-slice":    func() any { return []fmt.Stringer{c11Stringer{"a"}, nil} },
 		"tree": func() any { // a comment thread 90 replies deep
 			var v any = map[string]any{"n": 90, "kids": []any{}}
 			for i := 89; i >= 0; i-- {
@@ -140,7 +140,12 @@ func c11Values() map[string]func() any {
 			}
 			return v
 		},
-		"cyclic-struct": func() any { n := &c11Node{Name: "a"}; n.Next = &c11Node{Name: "b", Next: n}; n.Kids = []*c11Node{n}; return n },
+		"cyclic-struct": func() any {
+			n := &c11Node{Name: "a"}
+			n.Next = &c11Node{Name: "b", Next: n}
+			n.Kids = []*c11Node{n}
+			return n
+		},
 		// a map or slice that contains itself is left out: fmt.Sprint itself does not terminate on one
 	}
 }
@@ -160,26 +165,26 @@ func c11Funcs(name string) vuego.FuncMap {
 			"variad":  func(xs ...int) int { return len(xs) },
 			"ptrarg":  func(p *c11Priv) string { return p.Name },
 			// one function per parameter kind: the call converts whatever the data holds to the parameter type
-			"kArr3":    func(a [3]int) int { return a[0] },
-			"kArrPtr":  func(a *[2]int) int { return a[0] },
-			"kStrs":    func(a []string) int { return len(a) },
-			"kBytes":   func(a []byte) int { return len(a) },
-			"kMap":     func(m map[string]int) int { return len(m) },
-			"kChan":    func(c chan int) int { return cap(c) },
-			"kFunc":    func(f func() string) string { return f() },
-			"kStruct":  func(p c11Priv) string { return p.Name },
-			"kIntPtr":  func(p *int) int { return *p },
+			"kArr3":     func(a [3]int) int { return a[0] },
+			"kArrPtr":   func(a *[2]int) int { return a[0] },
+			"kStrs":     func(a []string) int { return len(a) },
+			"kBytes":    func(a []byte) int { return len(a) },
+			"kMap":      func(m map[string]int) int { return len(m) },
+			"kChan":     func(c chan int) int { return cap(c) },
+			"kFunc":     func(f func() string) string { return f() },
+			"kStruct":   func(p c11Priv) string { return p.Name },
+			"kIntPtr":   func(p *int) int { return *p },
 			"kStringer": func(x fmt.Stringer) string { return x.String() },
-			"kErr":     func(e error) string { return e.Error() },
-			"kU8":      func(u uint8) uint8 { return u },
-			"kF32":     func(f float32) float32 { return f },
-			"kCplx":    func(c complex128) complex128 { return c },
-			"kBool":    func(b bool) bool { return b },
-			"kRune":    func(r rune) string { return string(r) },
-			"kDur":     func(d time.Duration) string { return d.String() },
-			"kVarAny":  func(xs ...any) int { return len(xs) },
-			"kVarArr":  func(xs ...[2]int) int { return len(xs) },
-			"kCtxArr":  func(ctx *vuego.VueContext, a [3]int) int { return a[2] },
+			"kErr":      func(e error) string { return e.Error() },
+			"kU8":       func(u uint8) uint8 { return u },
+			"kF32":      func(f float32) float32 { return f },
+			"kCplx":     func(c complex128) complex128 { return c },
+			"kBool":     func(b bool) bool { return b },
+			"kRune":     func(r rune) string { return string(r) },
+			"kDur":      func(d time.Duration) string { return d.String() },
+			"kVarAny":   func(xs ...any) int { return len(xs) },
+			"kVarArr":   func(xs ...[2]int) int { return len(xs) },
+			"kCtxArr":   func(ctx *vuego.VueContext, a [3]int) int { return a[2] },
 		}
 	}
 	return nil
@@ -557,6 +562,7 @@ var c11Positions = []string{
 	`<p v-for="(i, x) in v">{{ i }}{{ x }}</p>`,
 	`<p v-for="x in v.k">{{ x.name }}</p>`,
 	`<template v-for="x in vs"><i v-for="y in x">{{ y }}</i></template>`,
+	`<p :title="v.name">{{ v.name }}|{{ v.Name }}|{{ v.next.name }}|{{ v.title }}</p>`, // fields by json tag, promoted ones included
 	`<p v-text="v">x</p>`,
 	`<p v-html="v">x</p>`,
 	`<p style="color: red" :style="v">x</p>`,
@@ -600,7 +606,7 @@ func c11TypeCases(r *Run, id *int) []c11Case {
 	var cases []c11Case
 	for _, pos := range c11Positions {
 		for _, dn := range names {
-			if !r.Thorough() && r.Rng.Intn(3) != 0 && !strings.Contains(dn, "cyclic") && dn != "struct" && dn != "int" && dn != "nil-ptr" {
+			if !r.Thorough() && r.Rng.Intn(3) != 0 && !strings.Contains(dn, "cyclic") && !(strings.Contains(dn, "embedded") && strings.Contains(pos, "v.name")) && dn != "struct" && dn != "int" && dn != "nil-ptr" {
 				continue
 			}
 			*id++
